@@ -8,7 +8,12 @@
    checks its shape (CatalogueOK) and prints the per-class sizes; checks/c06.py refuses to run (check broken) when the
    concretiser's tables disagree with what TLC printed -- a field or value class cannot silently drop out of the universe.
    Which OBJECTS of an image are damaged (which inodes, which directory blocks) is decided by the concretiser from the
-   independent reader's location map and stated in the evidence.                                                      *)
+   independent reader's location map and stated in the evidence.
+
+   The value classes below do not depend on the file.  Values that depend on OTHER fields of the same file -- a key's
+   size against the bounds e2undo derives from the header's block sizes, a qcow2 table against the end of the file,
+   free counts against their totals -- and the multi-field elements built from them (checksums recomputed), as well as
+   the degenerate journal rings, are the second part of the structured universe: spec/C06Readers.tla.                *)
 EXTENDS Integers, FiniteSets, TLC
 
 \* input kind -> object classes
